@@ -21,9 +21,9 @@ CHECKS = {
    technique="TLA+ typed program-builder state machine + TLA+ reference semantics evaluated by TLC; spec->code replay and TLC validation of recorded rewrite steps"),
  'C02': dict(
    category='model_checking',
-   text="Programs and nested tuples of outputs with shared subterms/loops from the ExprBuilder TLA+ machine are compiled by evaluable.compile under 10-14 configurations (_simplify x _optimize x cache_const_intermediates, stats, maxprocs) and called four times (first-run and rerun paths); returned structure, shapes, dtypes and values are compared with the ArraySem TLA+ model values computed by TLC.",
-   note="S->C only: the generated script is judged by its observable results under every configuration, the CodeGen abstract-machine trace validation of DESIGN.md is not yet implemented; parallel configurations are exercised on a subset in the quick tier (fork is slow in the sandbox).",
-   technique="TLA+ program-builder + TLA+ reference semantics (TLC) as oracle; replay across all compile configurations"),
+   text="Programs and nested tuples of outputs with shared subterms/loops from the ExprBuilder TLA+ machine are compiled by evaluable.compile under 10-14 configurations (_simplify x _optimize x cache_const_intermediates, stats, maxprocs) and called four times (first-run and rerun paths); returned structure, shapes, dtypes and values are compared with the ArraySem TLA+ model values computed by TLC (S->C). In addition the executed statements of the real generated scripts (first run and rerun, three configurations; recorded with sys.settrace through the nutils._util.function seam) are validated by TLC against the TraceCodeGen abstract machine: no read of undefined/uninitialised buffers, no stale values across loop iterations, accumulate only into zeroed buffers not read since, no write to frozen globals (C->S).",
+   note="The machine checks buffer/accumulator discipline of the script, contribution completeness is decided through the values; parallel configurations are exercised on a subset in the quick tier (fork is slow in the sandbox).",
+   technique="TLA+ program-builder + TLA+ reference semantics (TLC) as oracle across all compile configurations; TLC trace validation of executed generated scripts against a TLA+ statement machine"),
  'C03': dict(
    category='model_checking',
    text="CompiledFn.tla models the persistent state of a compiled function (first_run, frozen cached globals, aliasing of returned arrays) and user moves (call with env e, wrong-shape call, overwrite of a returned writable array); TLC checks Pure/CachedFrozen/CacheIntact over all histories up to MaxLen (spec mutant FreezeCached=FALSE must violate) and emits every maximal history; histories are replayed on programs mixing constant and argument-dependent subterms: each call must equal the ArraySem model value and a freshly compiled function, argument arrays must be bit-identical after the call, user writes are really attempted.",
